@@ -1,8 +1,29 @@
 (* C05 -- no extraneous solvables. *)
-From Resolvo Require Import Spec.Oracle.
+From Resolvo Require Import Spec.Oracle Cdcl.CheckRun.
 
 Theorem C05_oracle_correct : forall u P S,
   o_supported u P S = true <-> (forall s, In s S -> Supp (table_provider u) P S s).
 Proof. exact o_supported_spec. Qed.
 Check C05_oracle_correct : forall u P S,
   o_supported u P S = true <-> (forall s, In s S -> Supp (table_provider u) P S s).
+
+(* every state reachable by a run of the machine has a legal trail *)
+Theorem C05_run_trail_legal : forall soft db evs tr tr',
+  trail_ok soft db tr = true -> run_events soft db evs tr = Some tr' -> trail_ok soft db tr' = true.
+Proof. exact run_trail_ok. Qed.
+
+(* for every provider, database of facts + certified learnt clauses, and legal
+   final trail whose completion satisfies the database: the selection is supported *)
+Theorem C05_supported : forall U P, WF U -> forall db tr,
+  facts_ok U P db = true -> learnts_ok [] db = true ->
+  trail_ok (pr_soft P) db tr = true ->
+  (forall c, In c db -> cl_true (asg_of U db (tlits tr)) (cl_lits c) = true) ->
+  supported U P (sel_of (tlits tr)).
+Proof. exact support_sound. Qed.
+
+(* trace inclusion *)
+Theorem C05_trace_supported : forall u P lg sol,
+  check_sat_log u P lg sol = true -> supported (table_provider u) P sol.
+Proof. exact sat_log_supported. Qed.
+Check C05_trace_supported : forall u P lg sol,
+  check_sat_log u P lg sol = true -> supported (table_provider u) P sol.
